@@ -3,17 +3,46 @@
 #ifndef TETL_CONCEPTS_SWAPPABLE_HPP
 #define TETL_CONCEPTS_SWAPPABLE_HPP
 
+#include <etl/_concepts/assignable_from.hpp>
+#include <etl/_concepts/move_constructible.hpp>
+#include <etl/_cstddef/size_t.hpp>
+#include <etl/_type_traits/is_class.hpp>
+#include <etl/_type_traits/is_enum.hpp>
+#include <etl/_type_traits/is_union.hpp>
+#include <etl/_type_traits/remove_reference.hpp>
 #include <etl/_utility/swap.hpp>
 
 namespace etl {
 
-/// \todo Convert to ranges::swap once available
+namespace detail::swappable_impl {
+
+// Overload resolution for the customisation point sees the swap functions found by
+// argument-dependent lookup and this deleted overload only [concept.swappable].
+template <typename T>
+auto swap(T&, T&) -> void = delete;
+
+template <typename T>
+concept adl_swap = (is_class_v<T> or is_union_v<T> or is_enum_v<T>) and requires(T& a, T& b) { swap(a, b); };
+
+// Arrays of known bound are swapped element by element.
+template <typename T>
+struct element {
+    using type = T;
+};
+
+template <typename T, size_t N>
+struct element<T[N]> : element<T> { };
+
+// Is ranges::swap(a, b) valid for two lvalues of type T: a swap found by argument-dependent
+// lookup, otherwise move construction and move assignment.
+template <typename T>
+concept lvalues = adl_swap<T> or (move_constructible<T> and assignable_from<T&, T>);
+
+} // namespace detail::swappable_impl
+
 /// \ingroup concepts
 template <typename T>
-concept swappable = requires(T& a, T& b) {
-    swap(a, b);
-    // ranges::swap(a, b);
-};
+concept swappable = detail::swappable_impl::lvalues<typename detail::swappable_impl::element<remove_reference_t<T>>::type>;
 
 } // namespace etl
 
